@@ -18,7 +18,7 @@ REQUIRED_CLASSES = {t: ["tensor:uniaxial", "tensor:pure_shear", "tensor:hydrosta
                     for t in ("quick", "thorough")}
 REQUIRED_MONITORS = ["rotation_invariant:eigen_based", "rotation_invariant:mises^2", "homogeneous", "definition:mises", "definition:tresca",
                      "definition:principals", "definition:abs_max_principal", "mises<=tresca<=2/sqrt3*mises", "signed:magnitude",
-                     "signed:sign", "signed:zero_indicator_gives_+1", "accessor==functions", "finite_and_real"]
+                     "signed:sign", "signed:zero_indicator_gives_+1", "abs_max_principal:exact_tie_is_positive", "accessor==functions", "finite_and_real"]
 RULE = ("seeded symmetric 3x3 tensors (uniaxial, pure shear, hydrostatic, repeated eigenvalues, zero, generic; magnitudes 1e-3..1e4) x "
         "random rotations (QR of a Gaussian matrix, det +1) x positive scale factors; scalar components and column arrays; the "
         "accessor df.equistress.* row by row. Definitions come from numpy.linalg.eigvalsh of the assembled tensor. Signs are not "
@@ -160,6 +160,14 @@ def run_case(case, ctx):
     z = EQ.signed_mises_trace(k_, -k_, 0.0, 0.0, 0.0, 0.0)                       # trace exactly 0
     z2 = EQ.signed_tresca_abs_max_principal(0.0, 0.0, 0.0, k_, 0.0, 0.0)        # pure shear: w = +-k
     z3 = EQ.signed_mises_trace(0.0, 0.0, 0.0, 0.0, 0.0, 0.0)
+    # absolute maximum principal stress at an exact tie |w_max| == |w_min|: the indicator is zero, the documented sign is +1
+    t1 = float(np.asarray(EQ.abs_max_principal(k_, -k_, 0.0, 0.0, 0.0, 0.0)))
+    t2 = float(np.asarray(EQ.abs_max_principal(0.0, 0.0, 0.0, 0.0, k_, 0.0)))
+    t3 = np.asarray(EQ.abs_max_principal(np.array([k_, 0.0]), np.array([-k_, 2 * k_]), np.array([0.0, -2 * k_]), np.zeros(2), np.zeros(2), np.zeros(2)), dtype=float)
+    tdf = pd.DataFrame({"S11": [0.0, k_], "S22": [k_, 0.0], "S33": [-k_, -k_], "S12": [0.0, 0.0], "S13": [0.0, 0.0], "S23": [0.0, 0.0]})
+    t4 = np.asarray(tdf.equistress.abs_max_principal(), dtype=float)
+    ctx.check("abs_max_principal:exact_tie_is_positive", t1 == k_ and t2 == k_ and bool(np.all(t3 == np.array([k_, 2 * k_]))) and bool(np.all(t4 == k_)),
+              observed=[t1, t2, t3, t4], expected=k_)
     # the same through column input
     ka, zz = np.array([k_, 2 * k_]), np.zeros(2)
     za = np.asarray(EQ.signed_mises_trace(ka, -ka, zz, zz, zz, zz), dtype=float)
